@@ -2219,8 +2219,6 @@ package otto
 //@   nosafety
 //@   requires call.runtime != nil && argsOK(call.ArgumentList)
 //@   requires forall i int :: 0 <= i && i < len(call.ArgumentList) ==> jsValue(call.ArgumentList[i]) && call.ArgumentList[i].kind != valueObject
-//@   at_call builtinDateReviveForSetYear : arg0 == call && arg1 == true
-//@   calls builtinDateReviveForSetYear(_, _)
 //@   at_call builtinDateBeforeSet : arg1 == 3 && arg2 == true
 //@   at_call (*ecmaTime).goTime : arg0 == ecmaTime && arg0.minute == value[0] && (len(value) > 1 ==> arg0.second == value[1]) && (len(value) > 2 ==> arg0.millisecond == value[2])
 //@   calls (*ecmaTime).goTime(_) whenret !nanValue(result)
@@ -2229,8 +2227,6 @@ package otto
 //@   nosafety
 //@   requires call.runtime != nil && argsOK(call.ArgumentList)
 //@   requires forall i int :: 0 <= i && i < len(call.ArgumentList) ==> jsValue(call.ArgumentList[i]) && call.ArgumentList[i].kind != valueObject
-//@   at_call builtinDateReviveForSetYear : arg0 == call && arg1 == false
-//@   calls builtinDateReviveForSetYear(_, _)
 //@   at_call builtinDateBeforeSet : arg1 == 3 && arg2 == false
 //@   at_call (*ecmaTime).goTime : arg0 == ecmaTime && arg0.minute == value[0] && (len(value) > 1 ==> arg0.second == value[1]) && (len(value) > 2 ==> arg0.millisecond == value[2])
 //@   calls (*ecmaTime).goTime(_) whenret !nanValue(result)
@@ -2362,6 +2358,8 @@ package otto
 //@   stable call.ArgumentList
 //@   abstract_callee execRegExp, (*object).call
 //@   calls checkObjectCoercible(call.runtime, call.This)
+//@   calls (*object).get(_, "global") as g
+//@   calls (*object).put(_, "lastIndex", _, _) whenret result.kind == valueNull && g.kind == valueBoolean && is(g.value, bool) && g.value.(bool)
 //@   at_call (*object).put : arg0 == matcher && arg1 == "lastIndex" && arg3
 //@   at_call (*object).put : arg2.kind == valueNumber && is(arg2.value, int) && arg2.value.(int) == 0
 //@   ensures result.kind == valueNull || result.kind == valueObject
@@ -3769,3 +3767,25 @@ package otto
 //@   at_call time.Date : called(d) && d.isNaN && arg0 == 1970 && arg1 == 1 && arg2 == 1 && arg3 == 0 && arg4 == 0 && arg5 == 0 && arg6 == 0
 //@   nocall (*dateObject).Set(_, _) when false
 //@   calls (*dateObject).Set(_, _) whenret d.isNaN
+
+// 15.1.3 Decode: '+' is an ordinary character of a URI (the library decoder would read it
+// as a space), so it is protected before decoding for decodeURI and decodeURIComponent alike.
+//@ func decodeURI
+//@   props C13
+//@   calls strings.ReplaceAll(_, "+", "%2B")
+//@   at_call regexp.(*regexp.Regexp).ReplaceAllString : reserve && arg0 == decodeURIGuard && arg2 == "%25$1"
+
+// 11.2.1 property accessors: a TypeError for an undefined or null base and the reference
+// created otherwise both carry the source position of the accessor expression itself.
+//@ func (*runtime).cmplEvaluateNodeBracketExpression
+//@   props C19
+//@   nosafety
+//@   requires rt != nil && rt.otto != nil && node != nil
+//@   at_call (*runtime).panicTypeError : len(arg1) == 4 && is(arg1[3], at) && int(arg1[3].(at)) == int(node.idx)
+//@   at_call newPropertyReference : arg0 == rt && arg1 == obj && !arg3 && int(arg4) == int(node.idx)
+//@ func (*runtime).cmplEvaluateNodeDotExpression
+//@   props C19
+//@   nosafety
+//@   requires rt != nil && rt.otto != nil && node != nil
+//@   at_call (*runtime).panicTypeError : len(arg1) == 4 && is(arg1[3], at) && int(arg1[3].(at)) == int(node.idx)
+//@   at_call newPropertyReference : arg0 == rt && arg1 == obj && arg2 == node.identifier && !arg3 && int(arg4) == int(node.idx)
